@@ -96,7 +96,10 @@ type Writer struct {
 	Sizes    []int // size of each recorded write
 	FailFrom int
 	Err      error
-	Failed   int    // number of failed writes delivered
+	// FailCount selects the byte count a failing write reports together with
+	// its error (all legal for an io.Writer): 0 -> 0, 1 -> len(p), 2 -> len(p)/2.
+	FailCount int
+	Failed    int // number of failed writes delivered
 	Yield    func() // called before p is consumed (a blocked writer)
 	Clock    *uint64
 	KeepSizes bool
@@ -118,6 +121,12 @@ func (w *Writer) Write(p []byte) (int, error) {
 		e := w.Err
 		if e == nil {
 			e = ErrInjected
+		}
+		switch w.FailCount {
+		case 1:
+			return len(p), e
+		case 2:
+			return len(p) / 2, e
 		}
 		return 0, e
 	}
